@@ -144,6 +144,7 @@ def run(c, chk):
 
     # ---- R6.3 -------------------------------------------------------------------------------------
     nacc = 0
+    reported_rd = set()
     for s, tok, trs in model.table():
         for tr in trs:
             if tr.kind == 'ret' and tr.ret == 1:
@@ -163,11 +164,14 @@ def run(c, chk):
                         msg = rp.calls('cfg_error')[0]
                         fmt = msg.args[1][1] if msg.args[1][0] == 'str' else '?'
                         simple = not any('strndup' == x.name for x in rp.events if x.kind == 'call')
-                        chk.fail('R6.3', 'resolver-diag-on-accept:state%d:%s' % (s, 'simple' if simple else 'path'), c.where(e.ins),
+                        k_ = 'resolver-diag-on-accept:state%d:%s' % (s, 'simple' if simple else 'path')
+                        if k_ in reported_rd:
+                            continue
+                        reported_rd.add(k_)
+                        chk.fail('R6.3', k_, c.where(e.ins),
                                  'state %d accepts a name that cfg_getopt() did not find (%s), but cfg_getopt() has already reported %r%s'
                                  % (s, ' && '.join(x for x in tr.cond() if 'flags' in x and 'opt->' not in x), fmt,
                                     '' if simple else ' (name containing a path separator)'), witness=[tr.describe()])
-                        break
     sfn = c.need('cfg_setopt')
     bad = [p for p in fa.paths(sfn) if p.retval != sym.C0 and p.calls('cfg_error')]
     if bad:
@@ -272,7 +276,15 @@ def resolver_diag_paths(c, fa):
     if 'p' not in _RDP:
         fn = c.need('cfg_getopt_secidx')
         ps = fa.paths(fn, env={fn.params[2].name: sym.C0})
-        _RDP['p'] = [p for p in ps if p.retval == sym.C0 and p.calls('cfg_error')]
+        def returns_null(p):
+            if p.retval == sym.C0:
+                return True
+            for cn, t, _ in p.assume:
+                na = fp.is_null_assumption(cn, t)
+                if na and na[1] and na[0] == p.retval:
+                    return True      # the NULL result of the leaf lookup handed on
+            return False
+        _RDP['p'] = [p for p in ps if returns_null(p) and p.calls('cfg_error')]
     return _RDP['p']
 
 
@@ -324,6 +336,18 @@ def include_position(c, chk, lex):
             line1 = any(e.field == 'line' and e.val == sym.C1 and sym.root_of(e.addr) == ('p', 'cfg') for e in p.events if e.kind == 'store')
             newname = any(e.field == 'filename' and sym.root_of(e.addr) == ('p', 'cfg') for e in p.events if e.kind == 'store')
             pushed = (saved, line1, newname, p, stale)
+    # every diagnostic of the include function names the position of the include() call: it is issued before the
+    # context's position is switched to the included file
+    for p2 in ex.explore(fn):
+        if p2.end != 'ret':
+            continue
+        sw = [i for i, e in enumerate(p2.events) if e.kind == 'store' and e.addr[0] == 'fld' and e.addr[3] in ('filename', 'line') and sym.root_of(e.addr) == ('p', 'cfg')]
+        er = [i for i, e in enumerate(p2.events) if e.kind == 'call' and e.name == 'cfg_error']
+        if sw and er and er[-1] > sw[0]:
+            chk.fail('R6.5', 'include-diag-after-switch', c.where(p2.events[er[-1]].ins),
+                     'cfg_lexer_include() reports an error after it has switched cfg->filename / cfg->line to the included file: the diagnostic names '
+                     'line 1 of the file that could not be read instead of the place of the include() call')
+            return
     if pushed is None:
         raise report.Broken('cfg_lexer_include() has no success path')
     saved, line1, newname, p, stale = pushed
